@@ -634,4 +634,105 @@ theorem pow_le_63 (w : Nat) (hw : 0 < w) (h64 : w ≤ 64) : (2 : Int) ^ (w - 1) 
 
 end errno
 
+/-! ## atol outside the range of `long`: what the code does -/
+
+section atolovf
+
+/-- a digit string whose value passes `H`: the negative accumulation overflows
+at the first digit that takes it below `-H` -/
+theorem atolLoop_ovf (H : Nat) (hH : 0 < H) : ∀ (bs : List Byte) (stop : Byte) (tail : List Byte),
+    (∀ x ∈ bs, Spec.digit x < 10) →
+    ∀ (cb : Byte) (rest : List Byte), cb :: rest = bs ++ stop :: tail →
+    ∀ (N : Nat), N ≤ H → H < (bs.map Spec.digit).foldl (fun a d => a * 10 + d) N →
+    atolLoop (-(H : Int)) ((H : Int) - 1) rest (cb.toNat : Int) (-(N : Int)) = none := by
+  intro bs
+  induction bs with
+  | nil =>
+    intro stop tail _ cb rest _ N hN hov
+    simp only [List.map_nil, List.foldl_nil] at hov
+    omega
+  | cons x bs ih =>
+    intro stop tail hbs cb rest heq N hN hov
+    simp only [List.cons_append, List.cons.injEq] at heq
+    obtain ⟨h1, h2⟩ := heq
+    subst h1
+    have hx := hbs cb List.mem_cons_self
+    have hval := (isdigit_toNat cb).2 hx
+    simp only [List.map_cons, List.foldl_cons] at hov
+    have hne : ∃ cb' rest', cb' :: rest' = bs ++ stop :: tail := by
+      cases bs with
+      | nil => exact ⟨stop, tail, rfl⟩
+      | cons y ys => exact ⟨y, ys ++ stop :: tail, rfl⟩
+    obtain ⟨cb', rest', heq'⟩ := hne
+    unfold atolLoop
+    rw [(isdigit_toNat cb).1]
+    simp only [hx, decide_true, if_true, hval]
+    by_cases hstep : N * 10 + Spec.digit cb ≤ H
+    · rw [if_neg (by omega)]
+      rw [h2, ← heq']
+      simp only
+      have e : (10 : Int) * -(N : Int) - (Spec.digit cb : Int) = -((N * 10 + Spec.digit cb : Nat) : Int) := by omega
+      rw [e]
+      exact ih stop tail (fun y hy => hbs y (List.mem_cons_of_mem _ hy)) cb' rest' heq' _ hstep hov
+    · rw [if_pos (by omega)]
+
+/-- atol on a text whose decimal value is NOT representable: signed overflow
+(undefined behaviour in C; ISO 7.22.1.2 makes the call undefined as well).
+Together with `atol_value`: the model returns a value iff ISO defines one. -/
+theorem atol_overflow (w : Nat) (hw : 0 < w) (t : List Byte)
+    (hrep : ¬ (-((2 : Int) ^ (w - 1)) ≤ Spec.decimalValue t ∧ Spec.decimalValue t ≤ (2 : Int) ^ (w - 1) - 1)) :
+    atol w (t ++ [0]) = none := by
+  obtain ⟨_, hH0⟩ := pow_split w hw
+  have hHi : (2 : Int) ^ (w - 1) = ((2 ^ (w - 1) : Nat) : Int) := by norm_cast
+  rw [hHi] at hrep
+  generalize hH : 2 ^ (w - 1) = H at *
+  obtain ⟨cb1, rest1, e1, h1⟩ := atolSkip_spec t
+  obtain ⟨cb2, rest2, e2, hsign, h2⟩ := atolSign_spec (t.dropWhile Spec.isSpace) cb1 rest1 e1
+  generalize hsg : Spec.sign (t.dropWhile Spec.isSpace) = sg at *
+  obtain ⟨stop, tail, hsplit, hstop⟩ := run_split 10 (by omega) sg.2.2
+  have hparse : Spec.parse t 10 =
+      if Spec.digits 10 sg.2.2 = [] then none
+      else some ⟨sg.1, Spec.ofDigits 10 (Spec.digits 10 sg.2.2),
+        (t.takeWhile Spec.isSpace).length + sg.2.1 + 0 + (Spec.digits 10 sg.2.2).length⟩ := by
+    unfold Spec.parse
+    simp [hsg, Spec.effBase]
+  have hval : Spec.decimalValue t =
+      if sg.1 = true then -((Spec.ofDigits 10 (Spec.digits 10 sg.2.2) : Nat) : Int)
+      else ((Spec.ofDigits 10 (Spec.digits 10 sg.2.2) : Nat) : Int) := by
+    unfold Spec.decimalValue
+    rw [hparse]
+    by_cases hds : Spec.digits 10 sg.2.2 = []
+    · simp [hds, Spec.ofDigits]
+    · simp [hds]
+  rw [hval] at hrep
+  have hof : List.foldl (fun a d => a * 10 + d) 0 (Spec.digits 10 sg.2.2) = Spec.ofDigits 10 (Spec.digits 10 sg.2.2) := rfl
+  have hz : (-((0 : Nat) : Int)) = 0 := by simp
+  unfold atol
+  rw [h1]
+  simp only [hHi]
+  rw [h2]
+  simp only
+  by_cases hbig : H < Spec.ofDigits 10 (Spec.digits 10 sg.2.2)
+  · have hloop := atolLoop_ovf H hH0 (sg.2.2.takeWhile (fun x => decide (Spec.digit x < 10))) stop tail
+      (by intro x hx; have := mem_takeWhile_sat hx; simpa using this) cb2 rest2 (by rw [e2, hsplit]) 0
+      (by omega) (by rw [← digits_eq, hof]; exact hbig)
+    rw [hz] at hloop
+    rw [hloop]
+  · have hloop := atolLoop_spec H hH0 (sg.2.2.takeWhile (fun x => decide (Spec.digit x < 10))) stop tail
+      (by intro x hx; have := mem_takeWhile_sat hx; simpa using this) hstop cb2 rest2 (by rw [e2, hsplit]) 0
+      (by rw [← digits_eq, hof]; omega)
+    rw [← digits_eq, hof, hz] at hloop
+    rw [hloop]
+    simp only
+    generalize Spec.ofDigits 10 (Spec.digits 10 sg.2.2) = mag at *
+    cases h : sg.1
+    · have : ¬ (cb1.toNat : Int) = 45 := by rw [hsign, h]; simp
+      simp only [this, if_false]
+      simp only [h, Bool.false_eq_true, if_false] at hrep
+      rw [if_pos (by omega)]
+    · simp only [h, if_true] at hrep
+      omega
+
+end atolovf
+
 end Igris.C11
